@@ -10,7 +10,7 @@ from hypothesis import strategies as st
 
 import hdc.algo  # noqa: F401
 from hdc.algo.utils import get_calibration_indices, to_linspace
-from harness import refs
+from harness import refs, history
 from harness.core import Violation
 from harness.util import call, req, fmt, expect_raises
 from props import c07
@@ -219,7 +219,15 @@ def sub_long(case, rec=None):
     return why
 
 
-SUBS = {"indices": sub_indices, "spi": sub_spi, "decompose": sub_decompose, "long": sub_long}
+HQ = {"spi": history.q_spi}
+
+
+def sub_history(case):
+    """One cube asked for its SPI again and again - other windows, other arrangements of the same group labels - while attributes,
+    cells and time labels are edited in place: every answer equals that of a brand-new object with the same content."""
+    history.run_history(case, HQ, PID)
+
+SUBS = {"history": sub_history, "indices": sub_indices, "spi": sub_spi, "decompose": sub_decompose, "long": sub_long}
 
 LABEL_POOLS = [list(range(40)), [str(i) for i in range(40)], ["g%d" % i for i in range(40)], ["10", "2", "1", "a", "B", "-3", "07", "7"] + ["z%d" % i for i in range(32)]]
 
@@ -323,3 +331,17 @@ def run(ctx):
         rec.case("decompose", case, nontrivial=why is None, cls=["groups=%d" % min(ng, 7), "layout:" + case["layout"], "dtype:" + case["dtype"]])
 
     ctx.given("decompose", axis_case(mg, need_groups=True), ctx.n(350, 5000), fn=f_dec)
+
+
+_run_before_history = run
+
+
+def run(ctx):  # noqa: F811
+    _run_before_history(ctx)
+
+    def f_hist(case):
+        ctx.rec.case("history", case, nontrivial=history.nontrivial(case), cls=history.classes(case))
+        sub_history(case)
+
+    ctx.given("history", history.history_case({"spi": history.spi_args}, dtypes=("int16", "float32"), nt=(12, 24), attrs0={"nodata": -9999},
+                                              cells=st.one_of(st.integers(1, 3000), st.integers(1, 40), st.sampled_from([-9999, 0]))), ctx.n(200, 2500), fn=f_hist)
